@@ -89,6 +89,12 @@ def _decode(args):
     r, tree, fd, src_name, dst_name = args
     h = hashlib.sha256(b"c22:%d" % r).digest()
     kind = SOURCE_KINDS[h[0] % 5]
+    buf = BUFS[h[6] % 4]
+    # sizes are drawn before the buffer size is known: a quarter of the files (by their drawn content seed) are
+    # moved to the nearest non-zero multiple of the transfer buffer, so that "the last chunk is a full buffer"
+    # is a class the generator reaches by construction rather than by luck (seed C22-3)
+    tree = dict(tree, entries=[_on_buffer_boundary(e, buf) for e in tree["entries"]])
+    fd = _on_buffer_boundary(dict(fd, k="f"), buf)
     source = {"kind": kind, "tree": tree} if kind in ("dir", "link-dir") else {"kind": kind, "file": fd}
     return {
         "source": source,
@@ -98,8 +104,15 @@ def _decode(args):
         "dst_exists": h[4] % 3 == 0,
         "src_name": src_name,
         "dst_name": dst_name if h[5] % 5 < 2 else None,  # None = same basename as the (real) source
-        "buf": BUFS[h[6] % 4],
+        "buf": buf,
     }
+
+
+def _on_buffer_boundary(entry, buf: int):
+    if entry.get("k") != "f" or entry["seed"] % 4 != 0 or entry["size"] == 0:
+        return entry
+    cap = 65536 if fs.current_tier() == "quick" else 1048576
+    return dict(entry, size=min(max(1, round(entry["size"] / buf)) * buf, max(buf, cap // buf * buf)))
 
 
 def _cases(alpha: str = "plain", top=None, dangling: bool = False, max_size: int | None = None):
@@ -259,9 +272,13 @@ async def _run_transfer(case, rec, *, accept_failure: bool = False, bucket: str 
         feats = fs.tree_features(entries) if kind in ("dir", "link-dir") else set()
         rec.label(*sorted(feats))
         if kind in ("dir", "link-dir"):
+            if any(e["type"] == "file" and e["size"] > 0 and e["size"] % buf == 0 for e in entries):
+                rec.label("file:buffer-multiple")
             rich = len(entries) >= 2 and ("dir:nested" in feats or any(e["type"] == "file" and e["size"] > 0 for e in entries))
         else:
             rich = source["file"]["size"] > 0
+            if source["file"]["size"] > 0 and source["file"]["size"] % buf == 0:
+                rec.label("file:buffer-multiple")
             rec.label("file:exec" if fs.MODES[source["file"]["x"] % 4] & 0o111 else "file:noexec")
         rec.nontrivial(rich and _crossing(case))
 
@@ -395,6 +412,43 @@ def gen_matrix(tier):
 
 @prop.enumerated("matrix", gen_matrix, loop="std", case_timeout=600, max_shards=8)
 async def check_matrix(case, rec):
+    await _run_transfer(case, rec)
+
+
+def _boundary_tree(buf: int):
+    """Files whose sizes sit on and around multiples of the transfer buffer (the chunk loop of the tar writer /
+    extractor ends with a full buffer, an empty tail, one byte more, one byte less) and on 512-byte tar blocks,
+    each followed by further members so that a misaligned stream is visible as missing or corrupt later entries."""
+    sizes = [buf, 1, 2 * buf, buf - 1, buf + 1, 3 * buf, 512, buf + 512, 0, 4 * buf]
+    entries = [{"k": "d", "n": "sub", "p": 0}]
+    for i, size in enumerate(sizes):
+        entries.append({"k": "f", "n": f"f{i:02d}-{size}", "p": i % 2, "size": size, "seed": 50 + i,
+                        "c": ("bin", "text", "textnl")[i % 3], "x": i % 4})
+    entries.append({"k": "d", "n": "tail-empty", "p": 1})
+    entries.append({"k": "f", "n": "zz-last", "p": 0, "size": 77, "seed": 99, "c": "text", "x": 1})
+    return {"alpha": "plain", "dangling": False, "entries": entries}
+
+
+def gen_boundary(tier):
+    """Every streaming copy mechanism (local->remote tar writer, remote->local extractor, remote->remote pipe,
+    plus one local and one same-location copy as controls) x transfer buffer size x {the boundary tree, a single
+    file of exactly one buffer, of exactly two buffers}."""
+    routes = [("L", "A0"), ("A0", "L"), ("A0", "B0"), ("L", "W0"), ("B0", "L"), ("L", "L"), ("A0", "A1")]
+    bufs = (1000, 4096) if tier == "quick" else (1000, 4096, 512, 16384, 65536)
+    for buf in bufs:
+        for src, dst in routes:
+            if tier == "quick" and (src, dst) in (("L", "L"), ("A0", "A1")) and buf != 4096:
+                continue
+            base = {"src": src, "dst": dst, "writable": True, "dst_exists": False, "src_name": "srcobj", "dst_name": None, "buf": buf}
+            yield dict(base, source={"kind": "dir", "tree": _boundary_tree(buf)})
+            if tier != "quick" or src == "L" or dst == "L":
+                for k in (1, 2):
+                    yield dict(base, writable=(k == 1), source={"kind": "file", "file": {"size": k * buf, "seed": 7 + k, "c": "bin", "x": 1}})
+
+
+@prop.enumerated("buffer-boundary", gen_boundary, loop="std", case_timeout=600, max_shards=8)
+async def check_buffer_boundary(case, rec):
+    rec.label(f"boundary:{_route_class(case)}", "boundary:" + case["source"]["kind"])
     await _run_transfer(case, rec)
 
 
